@@ -3,6 +3,7 @@ package mon
 import (
 	"fmt"
 	"strings"
+	"time"
 
 	vocab "github.com/go-ap/activitypub"
 )
@@ -42,10 +43,11 @@ var colKinds = []colKind{
 func newPool() []vocab.Item {
 	return []vocab.Item{
 		vocab.IRI("https://example.com/items/0"),
-		&vocab.Object{ID: "https://example.com/items/1", Type: vocab.NoteType, Name: vocab.NaturalLanguageValues{{Ref: vocab.NilLangRef, Value: vocab.Content("one")}}},
-		&vocab.Actor{ID: "https://example.com/items/2", Type: vocab.PersonType, PreferredUsername: vocab.NaturalLanguageValues{{Ref: vocab.NilLangRef, Value: vocab.Content("two")}}},
-		&vocab.Activity{ID: "https://example.com/items/3", Type: vocab.LikeType, Object: vocab.IRI("https://example.com/items/1"), Actor: vocab.IRI("https://example.com/items/2")},
-		vocab.Object{ID: "https://example.com/items/4", Type: vocab.ArticleType},
+		// instants grow with the pool index: insertion order is oldest first, so a collection that re-orders by time shows at once
+		&vocab.Object{ID: "https://example.com/items/1", Type: vocab.NoteType, Name: vocab.NaturalLanguageValues{{Ref: vocab.NilLangRef, Value: vocab.Content("one")}}, Published: time.Date(2001, 1, 1, 0, 0, 0, 0, time.UTC)},
+		&vocab.Actor{ID: "https://example.com/items/2", Type: vocab.PersonType, PreferredUsername: vocab.NaturalLanguageValues{{Ref: vocab.NilLangRef, Value: vocab.Content("two")}}, Published: time.Date(2010, 1, 1, 0, 0, 0, 0, time.UTC)},
+		&vocab.Activity{ID: "https://example.com/items/3", Type: vocab.LikeType, Object: vocab.IRI("https://example.com/items/1"), Actor: vocab.IRI("https://example.com/items/2"), Updated: time.Date(2020, 1, 1, 0, 0, 0, 0, time.UTC)},
+		vocab.Object{ID: "https://example.com/items/4", Type: vocab.ArticleType, Published: time.Date(2005, 6, 1, 0, 0, 0, 0, time.UTC), Updated: time.Date(2030, 1, 1, 0, 0, 0, 0, time.UTC)},
 		vocab.IRI("https://EXAMPLE.com/items/5/"),
 	}
 }
@@ -77,9 +79,9 @@ func bigPool(n int) []vocab.Item {
 		case 0:
 			out = append(out, id)
 		case 1:
-			out = append(out, &vocab.Object{ID: id, Type: vocab.NoteType})
+			out = append(out, &vocab.Object{ID: id, Type: vocab.NoteType, Published: time.Date(2000, 1, 1+i, 0, 0, 0, 0, time.UTC)})
 		case 2:
-			out = append(out, &vocab.Actor{ID: id, Type: vocab.PersonType})
+			out = append(out, &vocab.Actor{ID: id, Type: vocab.PersonType, Updated: time.Date(2000, 1, 1+i, 12, 0, 0, 0, time.UTC)})
 		case 3:
 			out = append(out, &vocab.Activity{ID: id, Type: vocab.LikeType, Object: vocab.IRI("https://example.com/big/liked")})
 		default:
